@@ -17,12 +17,14 @@ def run(ctx, sess):
     ctx.not_decided = NOT_DECIDED
     P = sess.prog('default')
     ctx.rule('C15.1', 'the first block of a signal is always stored: the definition of omit_data that reaches the store/omit branch is masked with data_head.offset != 0')
+    ctx.rule('C15.7', 'the reported length does not depend on omission: a block is omitted only when it is full (omit_data is masked with entry_count >= data_length); the count of a partial block is stored only in the block itself')
     ctx.rule('C15.2', 'summaries do not depend on omission: from both arms of the omit branch every success path passes the level-1 summary, the timestamp advance and the count reset; the summary path never reads the file')
     ctx.rule('C15.3', 'marker agreement: the writer records index entry 0 for an omitted block and the reader treats offset 0 as omitted (reconstruction, no seek)')
     ctx.rule('C15.4', 'reconstruction covers what may be omitted: exact arms for u8/u4/u1 and float types, every arm counts what it fills; automatic omission applies to widths <= 8')
     ctx.rule('C15.6', 'automatic omission is decided only by a predicate that examines every byte of the block (a stored block is never replaced by a synthesised one unless it is constant)')
     ctx.rule('C15.5', 'the omission state is stored only by the API entry and by the per-block shift')
     f, br = first_block_stored(ctx, P, 'C15.1')
+    full_block_only(ctx, P, 'C15.7')
     # ---- C15.2
     need = {
         'summary': lambda e2: e2.k == 'call' and e2.callee == 'jls_core_fsr_summary1',
@@ -74,8 +76,33 @@ def run(ctx, sess):
         e = strip_casts(b.cond) if b.cond else None
         if e is not None and e.get('op') == 'bin' and e['o'] == '==' and any(nd.get('op') == 'member' and nd.get('field') == 'data_type' for nd in walk(e['k'][0])):
             arms.add(strip_casts(e['k'][1]).get('m') or e['k'][1].get('m') or const_of(e['k'][1]))
-    for name in ('JLS_DATATYPE_U8', 'JLS_DATATYPE_U4', 'JLS_DATATYPE_U1', 'JLS_DATATYPE_F32', 'JLS_DATATYPE_F64'):
+    # which types need an exact arm: every accepted type the writer omits on its own (width <= the automatic threshold,
+    # evaluated with the library's own size function) and the float types (synthesised from mean/std)
+    from .defnorm import accepted_data_types
+    from ..fd import FD
+    fd_ = FD(P)
+    psz = P.fn('jls_datatype_parse_size')
+    arm_vals = set()
+    for a_ in arms:
+        if isinstance(a_, int):
+            arm_vals.add(a_)
+    for b in rc.blocks.values():
+        e = strip_casts(b.cond) if b.cond else None
+        if e is not None and e.get('op') == 'bin' and e['o'] == '==' and any(nd.get('op') == 'member' and nd.get('field') == 'data_type' for nd in walk(e['k'][0])):
+            c_ = const_of(e['k'][1])
+            if c_ is not None:
+                arm_vals.add(c_)
+    need = 0
+    for dt in accepted_data_types(P):
+        w_ = fd_.call(psz, [dt])
+        if w_ <= 8:
+            need += 1
+            ctx.ob('C15.4', dt in arm_vals, rc.name, 'arm for automatically omitted type 0x%04x (width %d)' % (dt, w_), rc.where(),
+                   'exact arm present' if dt in arm_vals else
+                   'constant blocks of this type are omitted by the writer (width <= 8) but reconstruction has no arm for it: they read back as zeros')
+    for name in ('JLS_DATATYPE_F32', 'JLS_DATATYPE_F64'):
         ctx.ob('C15.4', name in arms, rc.name, 'arm for %s' % name, rc.where(), 'dispatch arms %s' % sorted(map(str, arms)))
+    ctx.floor('automatically omittable data types', need, 4)
     from .c10b import r9 as count_rule
     # fills are counted (shared with C10.9)
     fills = [ev for ev in rc.calls() if ev.callee in ('memset', '__builtin_memset', '__builtin___memset_chk', 'construct_f32', 'construct_f64')]
@@ -132,10 +159,53 @@ def run(ctx, sess):
     ctx.ob('C15.5', ok, f.name, 'request feeds the omit decision', f.where(), '')
 
 
-def first_block_stored(ctx, P, rule):
+def _mask_kinds(f, e):
+    """which guarantees a conjunct of the omit decision gives"""
+    kinds = set()
+    for c in _conjuncts(e):
+        names = [nd for nd in walk(c) if nd.get('op') == 'member']
+        if any(nd.get('field') == 'offset' and '.data_head' in tuple(f.path(nd) or ()) for nd in names):
+            kinds.add('has_chunk')
+        c0 = strip_casts(c)
+        if c0.get('op') == 'bin' and c0['o'] in ('>=', '==', '>', '<=', '<') and any(nd.get('field') == 'entry_count' for nd in names) and \
+                any(nd.get('field') in ('data_length', 'samples_per_data') for nd in names):
+            # entry_count >= data_length  (or data_length <= entry_count): the block is full
+            l, r = c0['k']
+            lf = any(nd.get('op') == 'member' and nd.get('field') == 'entry_count' for nd in walk(l))
+            if (lf and c0['o'] in ('>=', '==')) or ((not lf) and c0['o'] in ('<=', '==')):
+                kinds.add('full_block')
+    return kinds
+
+
+def _conjuncts(e):
+    e0 = strip_casts(e)
+    if e0 is not None and e0.get('op') == 'bin' and e0['o'] in ('&&', '&'):
+        return _conjuncts(e0['k'][0]) + _conjuncts(e0['k'][1])
+    return [e0] if e0 is not None else []
+
+
+def omit_guarantees(f, block, idx, depth=0):
+    """conjuncts every value of omit_data reaching the position is masked with (intersection over paths)"""
+    defs, entry = df.reaching_defs(f, 'omit_data', block, idx)
+    if not defs or entry or depth > 8:
+        return set(), ['no definition']
+    out = None
+    detail = []
+    for d in defs:
+        lhs, rhs, o = d.store_parts()
+        k = set()
+        if rhs is not None and o in ('&=', '='):
+            k = _mask_kinds(f, rhs)
+            if o == '&=' or (o == '=' and any(nd.get('op') == 'ref' and nd.get('name') == 'omit_data' for nd in walk(rhs))):
+                k2, _ = omit_guarantees(f, d.block, d.idx, depth + 1)
+                k |= k2
+        detail.append('%s@%d %s' % (o, d.ln, sorted(k)))
+        out = k if out is None else (out & k)
+    return out or set(), detail
+
+
+def _omit_branch(P):
     f = P.fn('wr_data', 'src/wr_fsr.c')
-    ctx.saw(f)
-    # the branch
     br = None
     for b in f.blocks.values():
         e = strip_casts(b.cond) if b.cond else None
@@ -143,24 +213,20 @@ def first_block_stored(ctx, P, rule):
             br = b
     if br is None:
         raise AnalysisBroken('wr_data: `if (omit_data)` branch not found')
-    # ---- C15.1
-    defs, entry = df.reaching_defs(f, 'omit_data', br, len(br.events))
-    ok = bool(defs) and not entry
-    detail = []
-    for d in defs:
-        lhs, rhs, o = d.store_parts()
-        masked = False
-        if o == '&=' and rhs is not None:
-            for nd in walk(rhs):
-                if nd.get('op') == 'member' and nd.get('field') == 'offset':
-                    p = f.path(nd)
-                    if p is not None and '.data_head' in tuple(p):
-                        masked = True
-        elif o == '=' and rhs is not None:
-            r0 = strip_casts(rhs)
-            if r0.get('op') == 'bin' and r0['o'] in ('&&', '&') and any(nd.get('op') == 'member' and nd.get('field') == 'offset' and '.data_head' in tuple(f.path(nd) or ()) for nd in walk(r0)):
-                masked = True
-        detail.append('%s@%d %s' % (o, d.ln, 'masked' if masked else 'NOT masked'))
-        ok = ok and masked
-    ctx.ob(rule, ok, f.name, 'omit_data masked by "a data chunk already exists"', '%s:%d' % (f.file, br.line), '; '.join(detail) or 'no definition')
     return f, br
+
+
+def first_block_stored(ctx, P, rule):
+    f, br = _omit_branch(P)
+    ctx.saw(f)
+    kinds, detail = omit_guarantees(f, br, len(br.events))
+    ctx.ob(rule, 'has_chunk' in kinds, f.name, 'omit_data masked by "a data chunk already exists"', '%s:%d' % (f.file, br.line), '; '.join(detail))
+    return f, br
+
+
+def full_block_only(ctx, P, rule):
+    f, br = _omit_branch(P)
+    kinds, detail = omit_guarantees(f, br, len(br.events))
+    ctx.ob(rule, 'full_block' in kinds, f.name, 'omit_data masked by "the block is full"', '%s:%d' % (f.file, br.line),
+           '; '.join(detail) if 'full_block' in kinds else
+           'a partial (last) block can be omitted: its sample count is stored nowhere else, so the reported length falls back to a multiple of sample_decimate_factor (%s)' % '; '.join(detail))
